@@ -8,7 +8,14 @@ PROPS = {
               "regenerated from /repo on each run; the model is tied to the Go code by exhaustive small-scope and random differential runs, and the "
               "laws are additionally evaluated on the real functions' outputs. A proof is the right level because the property quantifies over all byte strings.",
         note="Trusted: Lean kernel (+ propext, Classical.choice, Quot.sound), the gmgen translator, the correspondence harness, models of "
-             "url.QueryEscape/strconv.ParseUint/unicode/utf8 (validated differentially). Laws not yet proved in Lean are listed in DESIGN.md and are covered by the oracle only.",
+             "url.QueryEscape/strconv.ParseUint/unicode/utf8 (validated differentially). Proved in Lean for all byte strings: the EscapeHTML laws, "
+             "all five URLEscape laws (both modes), valid-UTF-8 preservation of the three resolvers with out-of-range numbers -> U+FFFD, and "
+             "ToLinkReference's normal form, idempotence, whitespace and case (ASCII + table-driven Unicode) insensitivity. Two provisos found: "
+             "(1) URLEscape copies bytes 0x80-0xC1/0xF8-0xFF that cannot start a UTF-8 sequence unchanged, so 'pure ASCII' needs valid input (as the "
+             "property says) and 'control byte' means <=0x20 and 0x7f; (2) interior \\v/\\f in a link label are not collapsed (only trimmed at the "
+             "ends): the whitespace law holds for runs of space/tab/LF/CR (refuting witness proved). BytesFilter: only the two heap-level lemmas "
+             "(append frame lemma, Extend's slot copy is fresh) are proved; filter_is_set/extend_isolated over all programs are covered by the "
+             "filter correspondence + oracle only. See notes/status_C19.md.",
         technique="Lean 4 theorems over a hand-written model + regenerated tables; differential correspondence check against the Go implementation",
         components=["util", "filter"],
         explanation="Theorems over all byte strings about the Lean model of util's transformers (GM.Model.Util), whose byte-class, "
@@ -299,6 +306,36 @@ PROPS = {
                     "conversion history and on a fresh instance.",
         assumptions=["callers do not mutate the []byte returned by Generate (the table keeps it as an unsafe read-only string key)",
                      "heading texts in generated documents do not contain raw '<' (the id extractor reads start tags)"],
+    ),
+    "C08": dict(
+        level="other",
+        module="GM.Props.C08",
+        claim="Partial, by design. Kernel-checked, for EVERY tab-free line and every start column, over a Lean model of goldmark's line recognisers "
+              "(blockquoteParser.process with a one-line model of text.Reader's Advance/AdvanceAndSetPadding/LineOffset, util.IndentWidth/IndentPosition, "
+              "isThematicBreak, the closing-fence test, indented-code Open/Continue, the block-offset computation and per-line gate of openBlocks): "
+              "(i) marker consumption - on [0-3 spaces] '>' [' '] r, process() advances exactly over the marker and one optional space, leaves padding 0, "
+              "hands exactly r to the children and moves the column by the same amount, and declines (reader untouched) when there is no '>' within three "
+              "columns; (ii) offset invariance - each of these recognisers, and the marker step itself, gives the same answer from every start column, so the "
+              "two columns a marker adds cannot change what the children see (with a tab this is false; counterexamples are in the file, which is why the "
+              "property excludes tabs). The model is tied to the Go functions (driven through the verif-tagged hook parser/export_verif.go) by an exhaustive "
+              "function-level correspondence. SEARCHED, not proved: that the block driver composes these steps into 'a block quote containing the same "
+              "blocks' on whole documents - the metamorphic oracle Convert(prefix^n D) = wrap^n(Convert(D)) (component quote).",
+        note="Trusted: Lean kernel (+ propext, Classical.choice, Quot.sound); the hook file (add-only wrappers calling the real functions through a real "
+             "text.Reader/Context); the correspondence harness. The block driver (parseBlocks/openBlocks/closeBlocks, blank-line bookkeeping, lazy "
+             "continuation, HTML blocks, lists, paragraphs) is not modelled - it is covered by the search only.",
+        technique="Lean 4 theorems over models of the line recognisers + exhaustive function-level correspondence; metamorphic search",
+        components=["linerec", "quote"],
+        tie=["linerec"],
+        explanation="Proved (GM.Props.C08): quote_consumes_marker / _nospace / quote_declines (marker consumption on every tab-free line, any prefix), "
+                    "offset_invariant / offset_invariant_quote / indent_pos_tabfree (all offset-taking line recognisers are column-independent on tab-free "
+                    "lines). Tie: component linerec runs every recogniser of the model and the real Go function on ALL lines up to length 5-7 over a "
+                    "per-recogniser alphabet (with and without final newline) x 9 reader start states (columns 0-4, and inside a tab with padding 1-3) plus "
+                    "random longer lines, outputs compared; Go oracles independent of the model check marker consumption and column independence directly "
+                    "on the real functions and compare each recogniser with a regexp transcription of the CommonMark wording (reported under C02). "
+                    "Searched: component quote converts D and prefix^n(D) (n <= 3) under core/GFM x safe/unsafe/XHTML and compares; for spec examples the "
+                    "expected side comes from spec.json.",
+        assumptions=["documents contain no tab and no carriage return (the property's proviso; the theorems' tabFree hypothesis)",
+                     "the block driver hands each container's remaining line view to its children unchanged (searched by component quote, not proved)"],
     ),
 }
 
